@@ -17,7 +17,9 @@ ASSUMPTIONS = ['levels whose generator output exceeds the cap are compared with 
                'the early return of calc_omen_keyspace at 10^10 strings is out of reach of the bounded lists']
 NSHARDS = 96
 EXTRA = [['ab'] * 3, ['ab', 'ba', 'aa'], ['abab'] * 4, ['abab', 'baba', 'abba'], ['aab', 'aba', 'abb'], ['aaa'] * 2 + ['aaaa'], ['ab1', 'ab1', 'a1b'],
-         ['abab', 'ab'], ['aaaaa'] * 3, ['abab1', 'babab']]
+         ['abab', 'ab'], ['aaaaa'] * 3, ['abab1', 'babab'],
+         # a context with seven equally likely followers has no level-0 transition; it is reached at two different prices (after m: level 0, after n: level 1)
+         ['mx' + c + d for c in 'abcdefg' for d in '12'] + ['nx' + c + '1' for c in 'abcdefg'] + ['nana'] * 25]
 
 
 def trainings(tier):
@@ -28,6 +30,8 @@ def trainings(tier):
         for ng in ngrams:
             for al in (2, 3, 10):
                 yield l, dict(ngram=ng, alphabet_size=al, coverage=0.5)
+    for ng in (2, 3):
+        yield EXTRA[-1], dict(ngram=ng, alphabet_size=100, coverage=0.5)      # the fan-out list needs its whole alphabet
 
 
 def shards(tier):
@@ -55,13 +59,14 @@ def check_training(wd, lines, opts, acc, gcap=50000, gmaxlevel=18):
     rows = P.read_list(os.path.join(base, 'Omen', 'omen_keyspace.txt'))
     ks = {int(v): int(p) for v, p in rows}
     ref = gm.count_per_level(max(ks) if ks else 0)
+    shared = O.new_optimizer()      # one optimizer for all the levels of a ruleset, generated in ascending order: the way a guessing session uses it
     for L in sorted(ks):
         want = ref.get(L, 0)
         if ks[L] >= 2:
             acc.nontrivial += 1
         if want <= gcap and L <= gmaxlevel:
             try:
-                outl, capped = O.emitted_at(g, L, cap=gcap + 1)
+                outl, capped = O.emitted_at(g, L, cap=gcap + 1, optimizer=shared)
             except Exception as e:
                 fails.append(('generator', 'MarkovCracker cannot be started at level %d: %r' % (L, e)))
                 break
